@@ -366,6 +366,8 @@ def handlePUBACK (p : Nat) (msgId : Nat) : Step :=
     match Ents.lookup w.ents (w.paddr p) .pub msgId with
     | none => Step.ok
     | some rid =>
+      if (w.req rid).qos ≠ 1 then Step.ok        -- a QoS 2 exchange is only completed by PUBREC + PUBCOMP
+      else
       cancelAlarm (w.req rid).alarm ;;
       fireReqDfd (w.req rid).dfd (.ok (.int (w.req rid).msgId)) ;;
       setEnts (fun es => Ents.remove es (w.paddr p) .pub msgId) ;;
@@ -377,6 +379,8 @@ def handlePUBREC (p : Nat) (msgId : Nat) : Step :=
     match Ents.lookup w.ents (w.paddr p) .pub msgId with
     | none => Step.ok
     | some rid =>
+      if (w.req rid).qos ≠ 2 then Step.ok        -- a QoS 1 message is only acknowledged by PUBACK
+      else
       cancelAlarm (w.req rid).alarm ;;
       setEnts (fun es => Ents.remove es (w.paddr p) .pub msgId) ;;
       match encodePUBREL (msgId : Int) with
